@@ -94,7 +94,7 @@ func runLoopScenario(t *testing.T, sc *loopScenario) *loopRun {
 		defer cancel()
 		nsvc := 0
 		failNext := map[int]bool{}
-		var peers []*vend
+		var peers, srvEnds []*vend
 		newService := func() server.Service {
 			k := nsvc
 			nsvc++
@@ -125,17 +125,37 @@ func runLoopScenario(t *testing.T, sc *loopScenario) *loopRun {
 				break
 			}
 			switch op.Kind {
-			case "connect", "connectfail":
+			case "connect", "connectfail", "connectbroken":
 				cli, srv := newVPair()
 				peers = append(peers, cli)
+				srvEnds = append(srvEnds, srv)
+				if op.Kind == "connectbroken" {
+					// a transport that breaks: the server's Recv number 1+Arg fails with an error that is
+					// neither end-of-input nor a closed-connection error, so its exit status carries it
+					at := int32(1 + op.Arg%2)
+					srv.st.recvErr = func(n int32) ([]byte, error, bool) {
+						if n >= at {
+							return nil, errors.New("connection reset"), true
+						}
+						return nil, nil, false
+					}
+					if at == 2 {
+						cli.Send([]byte(`{"jsonrpc":"2.0","id":1,"method":"m"}`))
+					}
+				}
 				failNext[accepted] = op.Kind == "connectfail"
-				r.logf("accept %d", accepted)
+				if op.Kind == "connectbroken" {
+					r.logf("accept %d broken", accepted)
+				} else {
+					r.logf("accept %d", accepted)
+				}
 				accepted++
 				offer(acceptResult{c: srv})
 			case "connect+closing":
 				// a connection immediately followed by the listener closing: Accept returns both back to back
 				cli, srv := newVPair()
 				peers = append(peers, cli)
+				srvEnds = append(srvEnds, srv)
 				r.logf("accept %d", accepted)
 				accepted++
 				r.logf("acceptfail closing")
@@ -222,6 +242,10 @@ func runLoopScenario(t *testing.T, sc *loopScenario) *loopRun {
 			r.logf("loopreturn %v", err)
 		}
 		synctest.Wait()
+		// how often each connection that reached Loop was closed by the library
+		for i, e := range srvEnds {
+			r.logf("closes %d %d problems=%v", i, e.st.closes.Load(), e.st.Problems())
+		}
 	})
 	return r
 }
@@ -390,6 +414,8 @@ func TestC20(t *testing.T) {
 		var trace []string
 		newsvc, finish := map[int]int{}, map[int]int{}
 		started := map[int]bool{}
+		broken := map[int]bool{}
+		cancelled := false
 		retAt := -1
 		closing := true
 		wantText := "accept boom"
@@ -404,6 +430,9 @@ func TestC20(t *testing.T) {
 			case "accept":
 				trace = append(trace, "a")
 				nconn++
+				if len(f) > 2 && f[2] == "broken" {
+					broken[k] = true
+				}
 			case "newservice":
 				if retAt >= 0 {
 					res.Violatef("Loop returned before a connection it had accepted was served and finished", in, "log: %s", shortLog(r.Log))
@@ -423,6 +452,10 @@ func TestC20(t *testing.T) {
 				if !strings.Contains(e, "sameAssigner=true") {
 					res.Violatef("Finish was not given the assigner its service returned", in, "%s", e)
 				}
+				// (a server that is stopped by the ending context before its transport breaks reports that instead)
+				if isErr := strings.Contains(e, "status=err:connection reset"); broken[k] != isErr && !(broken[k] && cancelled) {
+					res.Violatef("Finish was not given its own server's exit status", in, "%s (transport broken: %v); log: %s", e, broken[k], shortLog(r.Log))
+				}
 				if strings.Contains(e, "status=invalid") {
 					res.Violatef("Finish was given an invalid status", in, "%s", e)
 				}
@@ -430,6 +463,7 @@ func TestC20(t *testing.T) {
 					res.Violatef("Loop returned before a started server had been finished", in, "log: %s", shortLog(r.Log))
 				}
 			case "ctxcancel":
+				cancelled = true
 				trace = append(trace, "c")
 			case "acceptfail":
 				closing = f[1] == "closing"
@@ -475,7 +509,7 @@ func TestC20(t *testing.T) {
 		logs = append(logs, r.Log)
 		ins = append(ins, in)
 	}
-	kinds := []string{"connect", "connect", "connectfail", "clientclose", "cancel", "call", "acceptfail", "acceptclosing", "connect+closing", "acceptfaileof", "acceptfaileofbare", "acceptclosingwrapped"}
+	kinds := []string{"connect", "connect", "connectbroken", "connectfail", "clientclose", "cancel", "call", "acceptfail", "acceptclosing", "connect+closing", "acceptfaileof", "acceptfaileofbare", "acceptclosingwrapped"}
 	for i := 0; i < pick(400, 4000); i++ {
 		sc := &loopScenario{}
 		n := 1 + rng.Intn(7)
@@ -494,6 +528,7 @@ func TestC20(t *testing.T) {
 					continue
 				}
 				conns++
+				op.Arg = rng.Intn(2)
 			}
 			sc.Ops = append(sc.Ops, op)
 			if k == "acceptclosingwrapped" {
@@ -515,6 +550,9 @@ func TestC20(t *testing.T) {
 		{Ops: []loopOp{{Kind: "acceptclosingwrapped", Arg: 1}}},
 		{Ops: []loopOp{{Kind: "connect"}, {Kind: "acceptfaileof"}}},
 		{Ops: []loopOp{{Kind: "acceptfaileofbare"}}},
+		// servers that exit with an error status are finished like the others
+		{Ops: []loopOp{{Kind: "connectbroken", Arg: 0}, {Kind: "connect"}, {Kind: "acceptclosing"}}},
+		{Ops: []loopOp{{Kind: "connect"}, {Kind: "connectbroken", Arg: 1}, {Kind: "cancel"}}},
 	} {
 		for j := 0; j < 5; j++ {
 			runOne(sc)
